@@ -58,6 +58,21 @@ example : ∃ (o : Array Pos) (rank : Nat → Nat),
     rcases this with rfl | rfl | rfl <;> simp at hk <;> subst hk <;>
       first | (exfalso; exact hc rfl) | (simp [target]; intros; omega)
 
+/-- The same for a pure mark forest (no cursive links): no acyclicity witness is needed, marks attaching
+    backwards is all it takes. -/
+theorem C07_mark_coincide_forest (d : Dir) (o : Array Pos) (len : Nat) (hlen : len ≤ o.size)
+    (hforest : ∀ (k : Nat) (a : Pos) (j : Nat), o[k]? = some a → a.chain ≠ 0 → target k a.chain len = some j →
+      a.atype = ATTACH_MARK ∧ j < k) :
+    ∃ q dm, positionFinishOffsets o len d true = .ok (q, dm) ∧ dm ≤ nz o + 1 ∧
+      ∀ (i : Nat) (a : Pos) (j : Nat), i < len → o[i]? = some a → a.chain ≠ 0 →
+        target i a.chain len = some j →
+        penOrigin (visible q len d) (outIdx d len i) =
+          ((penOrigin (visible q len d) (outIdx d len j)).1 + a.xo,
+           (penOrigin (visible q len d) (outIdx d len j)).2 + a.yo) := by
+  obtain ⟨q, dm, h1, h2, h3⟩ := mark_coincide d o len id hlen
+    (fun k a j hk hc ht => (hforest k a j hk hc ht).2) (fun k a j hk hc _ ht => (hforest k a j hk hc ht).2)
+  exact ⟨q, dm, h1, h2, fun i a j hi hoi hc ht => h3 i a j hi hoi hc (hforest i a j hoi hc ht).1 ht⟩
+
 /-- `MarkArray::apply` stores exactly `base anchor − mark anchor` and a link to the glyph it was given
     (as long as the distance fits the `i16` `attach_chain`: D13, second half). -/
 theorem C07_mark_apply_exact {p q : Array Pos} {idx gp : Nat} {mx my bx byy : Int} {a : Pos}
@@ -91,6 +106,20 @@ theorem C07_cursive_cross (d : Dir) (o : Array Pos) (len : Nat) (rank : Nat → 
         target i a.chain len = some j → ∃ b c, q[i]? = some b ∧ q[j]? = some c ∧
           (if d.isHorizontal then b.xo = a.xo ∧ b.yo = c.yo + a.yo else b.yo = a.yo ∧ b.xo = c.xo + a.xo)) :=
   cursive_cross d o len rank hlen hacyc hmark
+
+/-- non-vacuity: three glyphs joined by forward cursive links (`rank k = 3 - k`), no marks -/
+example : ∃ (o : Array Pos) (rank : Nat → Nat),
+    (∀ (k : Nat) (a : Pos) (j : Nat), o[k]? = some a → a.chain ≠ 0 → target k a.chain 3 = some j → rank j < rank k) ∧
+    (∀ (k : Nat) (a : Pos) (j : Nat), o[k]? = some a → a.chain ≠ 0 → a.atype = ATTACH_MARK →
+      target k a.chain 3 = some j → j < k) ∧ (∃ a, o[0]? = some a ∧ a.chain ≠ 0 ∧ a.atype = ATTACH_CURSIVE) := by
+  refine ⟨#[{ xa := 10, yo := 3, chain := 1, atype := 2 }, { xa := 5, yo := -2, chain := 1, atype := 2 }, { xa := 7 }],
+    fun k => 3 - k, ?_, ?_, ⟨_, rfl, by decide, rfl⟩⟩
+  all_goals
+    intro k a j hk hc
+    have hk3 : k < 3 := lt_of_get? hk
+    have : k = 0 ∨ k = 1 ∨ k = 2 := by omega
+    rcases this with rfl | rfl | rfl <;> simp at hk <;> subst hk <;>
+      first | (exfalso; exact hc rfl) | (simp [target, ATTACH_MARK]; try (intros; omega))
 
 /-! ## cursive attachment, main axis: entry anchor of `j` = exit anchor of `i` right after the lookup applied
     (`position_finish_offsets` does not touch these fields: `C07_cursive_cross`).  `hz`: the glyphs the
@@ -246,6 +275,9 @@ theorem C07_kern_frame (infos : Array KInfo) (p q : Array Pos) (len mask : Nat) 
     q.size = p.size ∧ ∀ (k : Nat) (g : KInfo), infos[k]? = some g → g.mask &&& mask = 0 → q[k]? = p[k]? :=
   machineKernLoop_frame infos len mask _ cs kernOf _ _ _ _ _ _ h
 
+example : (machineKern #[{ gid := 1, mask := 1 }, { gid := 2, mask := 0 }] #[{ xa := 10 }, { xa := 7 }] 2 1 .ltr false
+    (fun _ _ => -5)).toOption = some (#[{ xa := 10 }, { xa := 7 }], false) := by decide +kernel
+
 /-- the loop bound the model hands to `machine_kern` is not a restriction: any larger fuel gives the same result -/
 theorem C07_kern_fuel (infos : Array KInfo) (p : Array Pos) (len mask : Nat) (d : Dir) (cs : Bool)
     (kernOf : Nat → Nat → Int) (extra : Nat) :
@@ -283,6 +315,14 @@ theorem C07_kern_fmt0_miss (pairs : Array (Nat × Int)) (l r : Nat)
     fmt0Kerning pairs l r = 0 :=
   fmt0Kerning_miss pairs l r hm
 
+example : ∀ (t : Nat) (k : Nat) (v : Int), (#[(65538, -10)] : Array (Nat × Int))[t]? = some (k, v) → k ≠ 1 * 65536 + 3 := by
+  intro t k v h
+  have : t = 0 := by
+    by_cases h0 : t = 0
+    · exact h0
+    · rw [Array.getElem?_eq_none (by simp; omega)] at h; cases h
+  subst this; simp at h; omega
+
 /-- Kerning not requested, forward text, no state-machine subtable: the whole `kern` pass changes neither
     the glyph order nor any advance / offset.  (Backward text: see `known_C02_kern_bracket`.) -/
 theorem C07_kern_off (subs : List KSub) (mask : Nat) (d : Dir) (sm : KSub → KBuf → KBuf) (b b' : KBuf)
@@ -318,6 +358,15 @@ theorem C02_bracket_partial (subs : List KSub) (requested : Bool) (mask : Nat) (
   · rename_i st hst
     simp only [Except.ok.injEq] at h; subst h
     exact kernDriver_infos requested mask d sm hsm hok subs false b st hlen hst
+
+/-- non-vacuity: the identity is an order-preserving state machine; requested kerning on RTL text -/
+example : (∀ (s : KSub) (b : KBuf), ((fun (_ : KSub) (b : KBuf) => b) s b).infos = b.infos ∧
+    ((fun (_ : KSub) (b : KBuf) => b) s b).len = b.len) ∧ (Dir.rtl.isForward = true ∨ true = true) ∧
+    (kernDriver [{ pairs := #[(65538, -10)] }] true 1 .rtl (fun _ b => b)
+      { infos := #[{ gid := 1, mask := 1 }, { gid := 2, mask := 1 }], pos := #[{ xa := 10 }, { xa := 20 }], len := 2 }).toOption.map
+        (fun b => b.infos.toList.map (·.gid)) = some [1, 2] := by
+  refine ⟨fun _ _ => ⟨rfl, rfl⟩, Or.inr rfl, ?_⟩
+  decide +kernel
 
 /-- counter-theorem (D3): right-to-left text, `kern` feature switched off, one ordinary format-0 subtable:
     the `continue` after the first `buffer.reverse()` skips the second one — the driver returns the two glyphs
